@@ -251,8 +251,9 @@ def mon_c05(cases):
                 if rv["at"] > t:
                     continue
                 if rv["id"] == ob["pid"] and rv["created"] == ob["pc"] and t > rv["at"] + p["RCI"] and stamp > ob["pc"]:
-                    f = "C05-IK" if finding_ik(c, ctx, i, sid, ob["pid"], ob["pc"], t, p["RCI"]) else None
-                    yield dict(what="record written under an intermediate key revoked more than one interval ago", case=ci, op=i, finding=f)
+                    # not attributable to finding C05-IK: a decrypt-path (re)load made after the revocation copies the revoked flag
+                    # onto the cached key, so the next encrypt does notice a revoked INTERMEDIATE key (the finding concerns its parent)
+                    yield dict(what="record written under an intermediate key revoked more than one interval ago", case=ci, op=i, finding=None)
                 ikp = ob.get("ikparent")
                 if ikp and rv["id"] == ikp[0] and rv["created"] == ikp[1] and t > rv["at"] + 2 * p["RCI"] and stamp > ikp[1] and stamp > ob["pc"]:
                     f = "C05-IK" if finding_ik(c, ctx, i, sid, ob["pid"], ob["pc"], t, p["RCI"]) else (
